@@ -14,3 +14,6 @@ REG.recfn("lsum_t", [("L", "list[int]"), ("k", "int")], "int", on="k", base="0",
 # must fail: returns the sum plus one
 REG.fn(F, "wrong_sum", prop="T", ensures=["result == lsum_t(xs, len(xs))"], lemmas=["t"],
        loops={1: __import__("pyvc.spec", fromlist=["LoopSpec"]).LoopSpec(index="q", invariants=["total == lsum_t(xs, q)"])})
+# contract-less straight-line helpers are inlined: the first is proved, the second (helper skips gaps of 1) must fail
+REG.fn(F, "smaller_inlined", prop="T", ensures=["result <= x", "result <= y"])
+REG.fn(F, "smaller_inlined_wrong", prop="T", ensures=["result <= x", "result <= y"])
